@@ -374,4 +374,31 @@ example : (execWith (collide .onPubrel 3 1) [(3, 11), (1, 11), (3, 99)]).broker.
     pubsOf (execWith (collide .onPubrel 3 1) [(3, 11), (1, 11), (3, 99)]) 3 =
       [(2, 11, false, .sent .lostAck), (2, 11, true, .sent .ok)] := by decide +kernel
 
+/-! A dialer that ignores its context (`cfg.deafDialer := true`; no theorem above has a hypothesis on
+    `cfg`). The Connect context is cancelled during the first dial; the transport that arrives
+    afterwards gets CONNECT and is closed at once. The one attempt for message 7 on that closed
+    transport carries the caller's identifier and draws nothing from the counter; if the dial fails
+    instead, no connection exists and the table is as the caller left it. -/
+
+def deafOk : Script :=
+  { cfg := { deafDialer := true },
+    evs := [.start, .app (.pub 7 1), .cancelCtx, .dialOk 10, .waitElapsed, .dialOk 500,
+            .connackOk true []] }
+
+def deafFail : Script := { deafOk with evs := [.start, .app (.pub 7 1), .cancelCtx, .dialFail] }
+
+example : deafOk.DistinctMsgs ∧ deafFail.DistinctMsgs ∧
+    (execWith deafOk demoIds).phase = .exited ∧ (execWith deafOk demoIds).connectErr = true ∧
+    allPkts (execWith deafOk demoIds) = [(.connect, .sent .ok), (.publish 7 1 20007 false, .dead)] ∧
+    (execWith deafOk demoIds).conns.map (·.alive) = [false] ∧
+    (getConn (execWith deafOk demoIds) 0).ctr = 10 ∧
+    (execWith deafOk demoIds).pid = demoIds ∧
+    (execWith deafOk demoIds).retryQ = [.rePublish 7 1] ∧
+    pubsOf (exec deafOk) 7 = [(1, 11, false, .dead)] ∧
+    (execWith deafFail demoIds).phase = .exited ∧ (execWith deafFail demoIds).connectErr = true ∧
+    (execWith deafFail demoIds).conns.length = 0 ∧ (execWith deafFail demoIds).waits = [] ∧
+    (execWith deafFail demoIds).pid = demoIds := by
+  refine ⟨by unfold Script.DistinctMsgs; decide, by unfold Script.DistinctMsgs; decide, ?_⟩
+  decide
+
 end Mqtt.C15.Preset
